@@ -213,8 +213,10 @@ class CompaSOHaloCatalog:
         )
 
         # Figure out what subsamples the user is asking us to loads
+        # The halo light cone particle file has no packed columns (rvint, packedpid):
+        # "all subsamples" means its pos, vel and pid columns, also in passthrough mode
         self.load_AB, self.load_pidrv = self._setup_load_subsamples(
-            load_subsamples, passthrough=passthrough
+            load_subsamples, passthrough=passthrough and not halo_lc
         )
         del load_subsamples  # use the parsed values
 
@@ -752,12 +754,22 @@ class CompaSOHaloCatalog:
         for i, af in enumerate(afs):
             caf = cleaned_afs[i] if cleaned_afs else None
 
+            # The unit factors are those of the file the values are stored in: the files of
+            # a halo light cone may come from several epochs, each with its own VelZSpace_to_kms
+            if not passthrough:
+                self._setup_halo_field_loaders(header=af['header'])
+
             # This is where the IO on the raw columns happens
             # There are some fields that we'd prefer to directly read into the concatenated table,
             # but ASDF doesn't presently support that, so this is the best we can do
             rawhalos = {}
             for field in raw_dependencies:
-                src = caf if field in clean_dt_progen.names else af
+                # Without a cleaning file (uncleaned catalog, halo light cone) every column,
+                # also one that bears the name of a cleaning column, is in the halo info file
+                if caf is not None and field in clean_dt_progen.names:
+                    src = caf
+                else:
+                    src = af
                 rawhalos[field] = src[self.data_key][field][:]
             rawhalos = Table(data=rawhalos, copy=False)
             af.close()
@@ -818,7 +830,7 @@ class CompaSOHaloCatalog:
 
         return N_halo_per_file
 
-    def _setup_halo_field_loaders(self, passthrough=False):
+    def _setup_halo_field_loaders(self, passthrough=False, header=None):
         # Loaders is a dict of regex -> lambda
         # The lambda is responsible for unpacking the rawhalos field
         # The first regex that matches will be used, so they must be precise
@@ -829,10 +841,13 @@ class CompaSOHaloCatalog:
             self.halo_field_loaders[pat] = lambda m, raw, halos: raw[m[0]]
             return
 
+        if header is None:
+            header = self.header
+
         if self.convert_units:
-            box = self.header['BoxSize']
+            box = header['BoxSize']
             # TODO: correct velocity units? There is an earlier comment claiming that velocities are already in km/s
-            zspace_to_kms = self.header['VelZSpace_to_kms']
+            zspace_to_kms = header['VelZSpace_to_kms']
         else:
             box = 1.0
             zspace_to_kms = 1.0
